@@ -54,14 +54,13 @@ func runGateway(in input) vh.Result {
 	}
 	wg.Wait()
 	final := true
-	if !st.stopped.Load() {
-		if !st.drainCap(5 * time.Second) {
-			// accepted work may legitimately still be running; give it time and try once more
-			st.waitHandled(10 * time.Second)
-			st.drainCap(3 * time.Second)
-		}
+	// the terminal drain must complete — also after Server.Stop, whose own bounded
+	// wait may have expired (the executor stays reachable through the handle)
+	finalOK := st.drainCap(5 * time.Second)
+	handled := st.waitHandled(3 * time.Second)
+	if !finalOK && handled {
+		finalOK = st.drainCap(3 * time.Second)
 	}
-	st.waitHandled(10 * time.Second)
 
 	rec := newC41rec()
 	rec.ticket.Store(st.rec.ticket.Load())
@@ -99,9 +98,13 @@ func runGateway(in input) vh.Result {
 		rec.stops = append(rec.stops, stopRec{t0: stopT0, t1: stopT1, ok: false})
 	}
 	_ = st.srv.Stop()
+	if !finalOK && handled {
+		panic("the final DrainSends without a deadline did not return although every admitted SEND is handled")
+	}
 	return vh.Result{
 		Coq:     rec.caseTerm(0, final),
-		Obs:     map[string]any{"sends": len(st.rec.sends), "batches": len(st.rec.batches), "drains": len(st.rec.drains)},
+		Obs: map[string]any{"sends": len(st.rec.sends), "batches": len(st.rec.batches), "drains": len(st.rec.drains),
+			"final_drain_ok": finalOK, "all_handled": handled},
 		Class:   classOf("gateway", rec, final),
 		Trivial: len(rec.terms) < 2,
 	}
